@@ -277,6 +277,7 @@ def finish(mod, prop, tier, seed, subs, results, t0, write=True):
     per_sub = {}
     new_viol, known_hits = [], {}
     unreproduced = []
+    slow = []
     for r in results:
         st = r.get("stats") or {}
         tot["paths"] += st.get("paths", 0)
@@ -297,6 +298,7 @@ def finish(mod, prop, tier, seed, subs, results, t0, write=True):
         ps["solver_s"] = round(ps["solver_s"] + st.get("solver_s", 0.0), 3)
         ps["wall_s"] = round(ps["wall_s"] + r.get("wall_s", 0.0), 3)
         ps["violations"] += len(r.get("violations", []))
+        slow.append((round(r.get("wall_s", 0.0), 1), r["sub"], json.dumps(r["shape"], default=str)[:160]))
         for k, v in (r.get("cover") or {}).items():
             cover[r["sub"] + ":" + k] = cover.get(r["sub"] + ":" + k, 0) + v
         for s in r.get("samples", []):
@@ -369,6 +371,7 @@ def finish(mod, prop, tier, seed, subs, results, t0, write=True):
             source_hash=src_hash(sources),
             bounds=bounds,
             per_subcheck=per_sub,
+            slowest_jobs=sorted(slow, reverse=True)[:5],
             cover_tags=cover,
             stubs=stubs,
             known_findings_reproduced=sorted(known_hits),
